@@ -40,6 +40,9 @@ type VerifRaftNode struct {
 	leader atomic.Bool
 	inFSM  atomic.Int32
 	index  uint64
+	// a snapshot begun by FSMSnapshotBegin and not yet persisted
+	pending      hraft.FSMSnapshot
+	pendingIndex uint64
 	// Reentered counts calls of raft.Apply made while this node's FSM.Apply was running
 	// (hashicorp/raft runs FSM.Apply on the goroutine that would have to serve that call).
 	Reentered int
@@ -176,3 +179,95 @@ func (server *SugarDB) VerifMemberNotify(msg []byte) { server.memberList.VerifNo
 
 // VerifMutationInProgress reports the flag getState waits on.
 func (server *SugarDB) VerifMutationInProgress() bool { return server.stateMutationInProgress.Load() }
+
+// VerifApplied is the outcome of one entry of a batch handed to the state machine.
+type VerifApplied struct {
+	Raw      interface{}
+	Resp     []byte
+	ErrText  string
+	Panicked string
+}
+
+// FSMApplyBatch feeds several committed entries to the state machine the way hashicorp/raft's runFSM
+// does: through ApplyBatch when the state machine implements raft.BatchingFSM, one Apply per entry
+// otherwise. The entries are consecutive entries of the log, in log order.
+func (n *VerifRaftNode) FSMApplyBatch(datas [][]byte) (out []VerifApplied) {
+	out = make([]VerifApplied, len(datas))
+	b, ok := n.fsm.(hraft.BatchingFSM)
+	if !ok {
+		for i, d := range datas {
+			raw, resp, errText, pan := n.FSMApply(d)
+			out[i] = VerifApplied{raw, resp, errText, pan}
+		}
+		return out
+	}
+	defer func() {
+		if r := recover(); r != nil {
+			for i := range out {
+				out[i].Panicked = fmt.Sprintf("%v", r)
+			}
+		}
+	}()
+	n.inFSM.Add(1)
+	defer n.inFSM.Add(-1)
+	logs := make([]*hraft.Log, len(datas))
+	for i, d := range datas {
+		n.index++
+		logs[i] = &hraft.Log{Type: hraft.LogCommand, Index: n.index, Term: 1, Data: d}
+	}
+	for i, raw := range b.ApplyBatch(logs) {
+		if i >= len(out) {
+			break
+		}
+		out[i].Raw = raw
+		if ar, ok := raw.(internal.ApplyResponse); ok {
+			out[i].Resp = ar.Response
+			if ar.Error != nil {
+				out[i].ErrText = ar.Error.Error()
+				if out[i].ErrText == "" {
+					out[i].ErrText = "error"
+				}
+			}
+		}
+	}
+	return out
+}
+
+// FSMSnapshotBegin calls FSM.Snapshot() (hashicorp/raft does so between two applies) and keeps the
+// result; FSMSnapshotPersist persists it later, after further entries may have been applied.
+func (n *VerifRaftNode) FSMSnapshotBegin() (errText string, panicked string) {
+	defer func() {
+		if r := recover(); r != nil {
+			panicked = fmt.Sprintf("%v", r)
+		}
+	}()
+	snap, err := n.fsm.Snapshot()
+	if err != nil {
+		return err.Error(), ""
+	}
+	n.pending = snap
+	n.pendingIndex = n.index
+	return "", ""
+}
+
+func (n *VerifRaftNode) FSMSnapshotPersist(msec int64) (data []byte, errText string, panicked string) {
+	defer func() {
+		if r := recover(); r != nil {
+			panicked = fmt.Sprintf("%v", r)
+		}
+	}()
+	if n.pending == nil {
+		return nil, "no snapshot begun", ""
+	}
+	sink := &verifSink{id: fmt.Sprintf("1-%d-%d", n.pendingIndex, msec)}
+	err := n.pending.Persist(sink)
+	n.pending.Release()
+	n.pending = nil
+	if err != nil {
+		return nil, err.Error(), ""
+	}
+	if sink.cancelled {
+		return nil, "cancelled", ""
+	}
+	return sink.Bytes(), "", ""
+}
